@@ -27,17 +27,11 @@ def ofContent : Content → Sexp
   | .binary t => tag "binary" [ofChars t]
   | .tb => .atom "tb"
 
-def hasDupNames : List Text → Bool
-  | [] => false
-  | x :: xs => xs.contains x || hasDupNames xs
-
-/-- a details dict: distinct names; a detail called `reason` is text; kept sorted by name (the canonical form in
-which both sides print it) -/
+/-- a details dict, kept sorted by name (the canonical form in which both sides print it); `Call.ok` checks
+that names are unique and a detail called `reason` is text -/
 def details? (s : Sexp) : Option Details := do
   let d ← list? (pair? chars? content?) s
-  if hasDupNames (d.map (·.1)) then none
-  else if d.any (fun p => p.1 == reasonKey && (match p.2 with | .text _ => false | _ => true)) then none
-  else some (sortDetails d)
+  some (sortDetails d)
 /-- printed sorted by name -/
 def ofDetails (d : Details) : Sexp := ofList (ofPair ofChars ofContent) (sortDetails d)
 
@@ -89,12 +83,6 @@ def ofCall : Call → Sexp
   | .stop => tag "stop" [] | .done => tag "done" [] | .progress => tag "progress" []
   | .setFailfast b => tag "setFailfast" [ofBool b]
 
-/-- a call a caller may make: argument form fits the outcome; times are `None` or a harness datetime -/
-def callOk : Call → Bool
-  | .add k _ a => argOk k a
-  | .time .wall => false
-  | _ => true
-
 def ev? : Sexp → Option Ev
   | .list [c, t] => do some { call := ← call? c, ctags := ← tags? t }
   | _ => none
@@ -122,7 +110,7 @@ def shapeHist? : Sexp → Option (Shape × List Call)
   | .list [s, h] => do
       let sh ← shape? s
       let hs ← list? call? h
-      if sh.wf && hs.all callOk then some (sh, hs) else none
+      if sh.wf && hs.all Call.ok then some (sh, hs) else none
   | _ => none
 
 end TTV.Drv.Res
